@@ -187,15 +187,70 @@ Proof.
   rewrite H1. apply IH. exact H2.
 Qed.
 
-(* witnesses *)
-Lemma unquote_panics_short_u : unquote [92; 117; 49; 50; 51] = RPanic.
-Proof. reflexivity. Qed.
-Lemma unquote_panics_surrogate :
-  unquote [92; 117; 100; 56; 48; 48] = RPanic /\
-  unquote [34; 92; 117; 100; 56; 51; 100; 92; 117; 100; 101; 48; 48; 34] = RPanic.
-Proof. split; vm_compute; reflexivity. Qed.
-Lemma unquote_bytes_panics_trailing_backslash : unquote_bytes [97; 92] = RPanic /\ unquote [97; 92] = ROk [97; 92].
-Proof. split; reflexivity. Qed.
+(* ---------- no crash (since d9436d51b) ---------- *)
+Lemma rcons_nopanic p r : r <> RPanic -> rcons p r <> RPanic.
+Proof. destruct r; cbn; congruence. Qed.
+
+Lemma decode4_nopanic a b c d : decode4 a b c d <> RPanic.
+Proof.
+  unfold decode4. destruct (hexval a), (hexval b); try discriminate.
+  destruct (hexval c), (hexval d); try discriminate.
+  destruct ((55296 <=? _) && (_ <=? 57343)); discriminate.
+Qed.
+
+Lemma unq_nopanic_len : forall n s, (length s <= n)%nat -> unq s <> RPanic /\ unqb s <> RPanic.
+Proof.
+  induction n as [|n IH]; intros s Hl.
+  - destruct s; cbn in *; [split; discriminate|lia].
+  - destruct s as [|x t]; [split; discriminate|]. cbn [length] in Hl.
+    assert (Ht : unq t <> RPanic /\ unqb t <> RPanic) by (apply IH; lia).
+    cbn [unq unqb]. destruct (x =? 92).
+    2:{ split; apply rcons_nopanic; apply Ht. }
+    destruct t as [|c t']; [split; discriminate|]. cbn [length] in Hl.
+    assert (Ht' : unq t' <> RPanic /\ unqb t' <> RPanic) by (apply IH; lia).
+    destruct (c =? 117).
+    2:{ split; apply rcons_nopanic; apply Ht'. }
+    destruct t' as [|a [|b [|c2 [|d rest]]]]; try (split; discriminate).
+    cbn [length] in Hl.
+    assert (Hr : unq rest <> RPanic /\ unqb rest <> RPanic) by (apply IH; lia).
+    pose proof (decode4_nopanic a b c2 d) as Hd.
+    destruct (decode4 a b c2 d); try congruence; [|split; discriminate].
+    split; apply rcons_nopanic; apply Hr.
+Qed.
+
+Theorem unquote_never_panics s : unquote s <> RPanic.
+Proof.
+  unfold unquote. pose proof (proj1 (unq_nopanic_len (length s) s (le_n _))) as H.
+  destruct (unq s); cbn; congruence.
+Qed.
+
+Theorem unquote_bytes_never_panics s : unquote_bytes s <> RPanic.
+Proof.
+  unfold unquote_bytes. pose proof (proj2 (unq_nopanic_len (length s) s (le_n _))) as H.
+  destruct (unqb s); cbn; congruence.
+Qed.
+
+(* what the former crash inputs return now *)
+Theorem unquote_truncated_u t : (length t < 4)%nat ->
+  unquote (92 :: 117 :: t) = RErr 1 /\ unquote_bytes (92 :: 117 :: t) = RErr 1.
+Proof.
+  intros H. destruct t as [|a [|b [|c [|d rest]]]]; cbn in H; try lia; split; reflexivity.
+Qed.
+
+Theorem unquote_surrogate_u a b c d rest : decode4 a b c d = RErr 1 ->
+  unquote (92 :: 117 :: a :: b :: c :: d :: rest) = RErr 1 /\
+  unquote_bytes (92 :: 117 :: a :: b :: c :: d :: rest) = RErr 1.
+Proof.
+  intros H. unfold unquote, unquote_bytes. cbn [unq unqb N.eqb Pos.eqb]. rewrite H. split; reflexivity.
+Qed.
+
+Lemma former_crash_inputs :
+  unquote [92; 117; 49; 50; 51] = RErr 1 /\ decode4 100 56 48 48 = RErr 1 /\
+  unquote [92; 117; 100; 56; 48; 48] = RErr 1 /\
+  unquote [34; 92; 117; 100; 56; 51; 100; 92; 117; 100; 101; 48; 48; 34] = RErr 1 /\
+  unquote_bytes [97; 92] = ROk [97; 92] /\ unquote [97; 92] = ROk [97; 92].
+Proof. repeat split; vm_compute; reflexivity. Qed.
+
 Lemma unquote_bytes_truncates :
   unquote_bytes [92; 117; 48; 48; 101; 57] = ROk [195] /\ unquote [92; 117; 48; 48; 101; 57] = ROk [195; 169].
 Proof. split; vm_compute; reflexivity. Qed.
